@@ -153,6 +153,27 @@ pub fn gen(id: &str, tier: &str, rng: &mut Rng, emit: &mut dyn FnMut(Op)) {
             pool.retain(|o| !matches!(o.name.as_str(), "distinfo.verify" | "entry.verify" | "pkgdb.iter"));
             let n = if tier == "thorough" { 60000 } else { 4000 };
             fuzz(&pool, n, rng, emit);
+            // small scope, exhaustive: every line of up to 4 (thorough: 5) bytes over blanks of
+            // all kinds, '@', a letter and a high byte — through the entry parser directly and
+            // through the document scanner (index arithmetic on short / blank-only lines)
+            let alpha: [u8; 9] = [b' ', b'\t', b'\r', b'\n', 0x0b, 0xa0, b'a', b'@', 0x0c];
+            let maxlen = if tier == "thorough" { 5 } else { 4 };
+            let mut cur: Vec<Vec<u8>> = vec![vec![]];
+            for _ in 0..maxlen {
+                let mut next = vec![];
+                for w in &cur {
+                    for &c in &alpha {
+                        let mut v = w.clone();
+                        v.push(c);
+                        emit(Op::new("plist.entry", &[&v]));
+                        if tier == "thorough" || v.len() <= 3 {
+                            emit(Op::new("plist.parse", &[&v]));
+                        }
+                        next.push(v);
+                    }
+                }
+                cur = next;
+            }
         }
         "C14" => gen_c14(tier, rng, emit),
         "C15" => gen_c15(tier, rng, emit),
